@@ -40,6 +40,8 @@ type TaskRunner struct {
 	cancelFunc  context.CancelFunc
 	cancelMutex sync.RWMutex
 	canceling   bool
+	running     int
+	doneOnce    sync.Once
 	doneCh      chan struct{}
 
 	compiler *TaskCompiler
@@ -92,12 +94,17 @@ func (r *TaskRunner) SetVariables(vars variables.Container) *TaskRunner {
 // Run run provided task.
 // TaskRunner first compiles task into linked list of Jobs, then passes those jobs to Executor
 func (r *TaskRunner) Run(t *task.Task) error {
+	r.cancelMutex.Lock()
+	r.running++
+	r.cancelMutex.Unlock()
+
 	defer func() {
-		r.cancelMutex.RLock()
-		if r.canceling {
-			close(r.doneCh)
+		r.cancelMutex.Lock()
+		r.running--
+		if r.canceling && r.running == 0 {
+			r.doneOnce.Do(func() { close(r.doneCh) })
 		}
-		r.cancelMutex.RUnlock()
+		r.cancelMutex.Unlock()
 	}()
 
 	if err := r.ctx.Err(); err != nil {
@@ -186,6 +193,9 @@ func (r *TaskRunner) Cancel() {
 		r.canceling = true
 		defer logrus.Debug("runner has been cancelled")
 		r.cancelFunc()
+	}
+	if r.running == 0 {
+		r.doneOnce.Do(func() { close(r.doneCh) })
 	}
 	r.cancelMutex.Unlock()
 	<-r.doneCh
